@@ -7,6 +7,7 @@ import (
 	"go/token"
 	"go/types"
 	"sort"
+	"strconv"
 	"strings"
 
 	"golang.org/x/tools/go/packages"
@@ -2217,6 +2218,35 @@ func (c *Ctx) r0920(pk *packages.Package, rule string) {
 		}
 		return true
 	})
+	// (f) the same for every other function of the package: the printer separates `<` from a regular expression literal that
+	// starts like the end tag (`a< /script /.test(b)`)
+	for _, ofd := range load.FuncDecls(pk) {
+		if ofd == fd || ofd.Body == nil {
+			continue
+		}
+		k := 0
+		ast.Inspect(ofd.Body, func(z ast.Node) bool {
+			ce, ok := z.(*ast.CallExpr)
+			if !ok {
+				return true
+			}
+			switch calleeName(info, ce) {
+			case "bytes.Equal", "bytes.HasPrefix", "bytes.HasSuffix", "bytes.Contains", "bytes.Index", "bytes.LastIndex":
+			default:
+				return true
+			}
+			for _, a := range ce.Args {
+				_, strs, _ := c.constsIn(pk, a)
+				for sv := range strs {
+					if strings.Contains(strings.ToLower(sv), "/script") {
+						k++
+						c.R.Bad(rule, fmt.Sprintf("js.%s/end tag recognised whatever its case and tail#%d", load.FuncName(ofd), k), c.pos(ce), "the end of a script element is looked for with "+str(ce.Fun)+"(…, "+strconv.Quote(sv)+"): `</script >`, `</SCRIPT>`, `</script/>` end a script element just as well — `a< /script /.test(b)` is printed as `a</script /.test(b)`, which cuts the script element short")
+					}
+				}
+			}
+			return true
+		})
+	}
 	rec := callsRecogniser(fd.Body)
 	if fixed == 0 {
 		c.R.Check(rec, rule, "js.replaceEscapes/end tag recognised whatever its case and tail#1", c.pos(fd), "through a case-folding comparison of `script`", "replaceEscapes does not look for `</script` at all: an unnecessary escape `<\\/script>` is stripped and the string ends the script element")
